@@ -1,5 +1,7 @@
 import Chiritori.Props.C12
 import Chiritori.Lemmas.FormatMerge
+import Chiritori.Lemmas.C14Default
+import Chiritori.Props.C02
 /-
   C14 — Whitespace changes are confined to the borders of removals.
 
@@ -14,8 +16,16 @@ import Chiritori.Lemmas.FormatMerge
       - a *block range*: part of the run of blanks at the beginning of a line behind the head seam of an
         unwrap pair, of the shape given in C12;
   * `merged_subset`: what is finally deleted is covered by those ranges.
-  Not proved yet: the step from this characterisation to `Spec.c14Holds` (it needs the correspondence between
-  positions of the text after removal and stretches of the source).
+  * `c14_default_partial`: the full statement `Spec.c14Holds` for EVERY source in which no element whose
+    condition holds carries `unwrap-block` (all default-strategy removals, junk and malformed sources included).
+    The proof: the stretches are the kept segments between the markers, trimmed (`stretches_eq_keptSegs`); the
+    text after removal is their concatenation; the seam positions are segment ends (`positions_segEnds`); every
+    deleted index lies in a whitespace run touching such an end (`seam_range_run`), so it cannot reach into a
+    trimmed core, whose first and last bytes are not whitespace (`coresKept_of_anchored`); hence the cores survive
+    in order (`embeds_minusFrom`) and the greedy matcher of the specification finds them (`occurInOrder_of_embeds`).
+  Not proved yet: the same for sources with an unwrapped block (the block ranges lie in the blanks at the beginning
+  of body lines, which are cut points of the stretches too; what is missing is the correspondence between a marker
+  pair and the body of the element it came from).
 -/
 namespace Chiritori.Props.C14
 open Chiritori Chiritori.Spec
@@ -131,5 +141,123 @@ theorem merged_subset (l : List Rng') (i : Nat) (h : inAny (mergeOverlapped l) i
   cases l with
   | nil => simpa [mergeOverlapped] using h
   | cons r rs => exact mergeOverlappedGo_subset rs r i h
+
+/-- C14 for every source without a ready unwrap-block: the trimmed stretches outside the ready extents occur
+    verbatim and in order in the output -/
+theorem c14_default_partial (src ds de : List Char) (cfg : Cfg) (out : List Char) (_ : ds ≠ []) (hde : de ≠ [])
+    (hnu : NoReadyUnwrap cfg (parseSource src ds de))
+    (h : clean src ds de cfg = .ok out) : c14Holds src ds de cfg out = true := by
+  unfold clean at h
+  simp only [bind, Except.bind, pure, Except.pure] at h
+  generalize hM : buildRemoveMarker cfg (bytesOf src) (parseSource src ds de) = M at h
+  cases hrm : removeMarkers (bytesOf src) M with
+  | error e => rw [hrm] at h; simp at h
+  | ok removed =>
+    rw [hrm] at h
+    simp only at h
+    cases hpos : getRemovedPos M with
+    | error e => rw [hpos] at h; simp at h
+    | ok pos =>
+      rw [hpos] at h
+      simp only at h
+      cases hf : format removed pos with
+      | error e => rw [hf] at h; simp at h
+      | ok o =>
+        rw [hf] at h
+        simp only at h
+        injection h with h
+        subst h
+        -- the markers
+        obtain ⟨hs, hcov⟩ := buildRemoveMarker_spec src ds de cfg hde
+        rw [hM] at hs hcov
+        have hnp : ∀ m ∈ M, m.pair = none := by
+          rw [← hM]
+          exact mergeMarkers_nopair _ [] (collect_nopairs cfg (bytesOf src) _ hnu) (by simp)
+        have hrin := RIn_of_MSorted (bytesOf src) M 0 (blen src) hs (by simp)
+        generalize hrs : (M.map fun m => (m.start, m.stop)) = rs at hrin
+        -- the text after removal is the concatenation of the kept segments
+        have hremoved : removed = (keptSegs (bytesOf src) rs 0).flatten := by
+          rw [removeMarkers_eq _ _ 0 (blen src) hs removed hrm, hrs, minusRanges_eq_minusFrom]
+          have := minusFrom_eq_keptSegs (bytesOf src) rs 0 hrin
+          simpa using this
+        -- the positions handed to `format`
+        have hpos' := removedPosAux_eq M 0 0 (blen src) hs (Nat.le_refl _)
+        unfold getRemovedPos at hpos
+        rw [hpos'] at hpos
+        injection hpos with hpos
+        obtain ⟨s1, hs1⟩ := deleteAll_wellFormed src _ removed hrm
+        -- the ranges `format` deletes
+        unfold format at hf
+        cases hfc : formatCollect removed pos pos with
+        | error e => rw [hfc] at hf; simp at hf
+        | ok rb =>
+          obtain ⟨ranges, blocks⟩ := rb
+          rw [hfc] at hf
+          simp only at hf
+          have hblocks : blocks = [] := by
+            apply formatCollect_noblocks removed pos pos ranges blocks _ hfc
+            intro p hp
+            rw [← hpos] at hp
+            have := (List.of_mem_zip hp).2
+            obtain ⟨m, hm, hmp⟩ := List.mem_map.mp this
+            rw [← hmp]; exact hnp m hm
+          subst hblocks
+          rw [hs1] at hfc
+          obtain ⟨ok1, _⟩ := formatCollect_ok s1 pos pos ranges [] hfc
+          obtain ⟨loc1, _⟩ := ranges_local s1 pos pos ranges [] hfc
+          have hall : ∀ x ∈ mergeRanges ranges (sortByStart []), RangeOK s1 x := by
+            intro x hx
+            rcases mem_mergeRanges _ _ _ hx with hx | hx
+            · exact ok1 x hx
+            · simp [sortByStart] at hx
+          obtain ⟨m1, m2⟩ := mergeOverlapped_spec s1 _ hall
+          rw [deleteRanges_eq_deleteAll] at hf
+          have hrsF := RSorted_of_OSorted s1 _ m1 m2 0 (fun _ _ => Nat.zero_le _)
+          have heq := deleteAll_eq removed _ 0 hrsF o hf
+          simp only [List.take_zero, List.drop_zero, List.nil_append] at heq
+          obtain ⟨s2, hs2⟩ := deleteAll_wellFormed s1 _ o (by rw [← hs1]; exact hf)
+          -- every deleted index is anchored at a segment end
+          have hanch : Anchored (mergeOverlapped (mergeRanges ranges (sortByStart [])))
+              (keptSegs (bytesOf src) rs 0).flatten (segEnds (keptSegs (bytesOf src) rs 0) 0) 0 := by
+            intro d hd
+            have hd2 := merged_subset _ d hd
+            simp only [inAny, List.any_eq_true] at hd2
+            obtain ⟨x, hx, hxd⟩ := hd2
+            have hxr : x ∈ ranges := by
+              rcases mem_mergeRanges _ _ _ hx with hx | hx
+              · exact hx
+              · simp [sortByStart] at hx
+            obtain ⟨p, hp, g⟩ := loc1 x hxr
+            simp only [Rng.contains, Bool.and_eq_true, decide_eq_true_eq] at hxd
+            refine ⟨x.1, x.2, p.1, hxd.1, hxd.2, g.le1, g.le2, ?_, Or.inr ?_⟩
+            · intro i hi1 hi2
+              obtain ⟨y, hy, hyw⟩ := g.ws i hi1 hi2
+              rw [← hs1, hremoved] at hy
+              exact ⟨y, hy, isWs_of_isWsByte y hyw⟩
+            · rw [← hpos] at hp
+              have hp1 := (List.of_mem_zip hp).1
+              have := positions_segEnds (bytesOf src) M 0 0 (blen src) hs (Nat.le_refl _) (by simp) p.1 hp1
+              rw [hrs] at this
+              exact this
+          have hocc := occur_of_anchored _ _ hanch
+          -- assemble
+          unfold c14Holds
+          dsimp only
+          rw [unwrappedBodies_nil cfg _ _ hnu]
+          have hstr := stretches_eq_keptSegs (bytesOf src) (readyExtents cfg (bytesOf src) (parseSource src ds de)) rs hrin (by
+            intro i
+            rw [← hrs, Bool.eq_iff_iff, C02.inAny_markers, hcov i]
+            rfl)
+          rw [hstr, hs2, charsOf_bytesOf, ← hs2, heq, hremoved]
+          exact hocc
+
+/-! Non-vacuity: a junk source with stray tags and two ready default elements, one of them inline. -/
+def exCfg : Cfg := ⟨"tl".toList, "rm".toList, 1577836800, 0, "+00:00".toList, ["a".toList]⟩
+def exSrc : List Char :=
+  "a </rm>\n  <rm name='a'>\n  x\n  </rm>\n\n b <tl to='2000-01-01 00:00:00'> y </tl> c\n<rm name='b' unwrap-block>\n".toList
+example : (elementsOf (parseSource exSrc "<".toList ">".toList)).all
+    (fun e => !conditionHolds exCfg e.1 || !hasAttr e.1 "unwrap-block") = true := by decide +kernel
+example : (stretches (bytesOf exSrc) (extentsOfSource exSrc "<".toList ">".toList exCfg) []).length = 3 := by
+  decide +kernel
 
 end Chiritori.Props.C14
